@@ -95,6 +95,7 @@ func cmdRun(args []string) {
 	tabulate := fs.String("tabulate", "", "f1;f2")
 	lockmon := fs.Bool("lockmon", false, "lock discipline monitor")
 	fulllib := fs.Bool("fulllib", false, "interpret the schema library")
+	steps := fs.Int("steps", 0, "step budget per path")
 	nfix := fs.Int("fixtures", 0, "translator validation: sample this many /repo/testdata fixtures (-1 all)")
 	fixMax := fs.Int("fixmax", 0, "skip fixtures larger than this many bytes")
 	fs.Parse(args)
@@ -121,6 +122,7 @@ func cmdRun(args []string) {
 	}
 	cfg := sym.Config{Pkg: *pkg, Harness: *fn, Bounds: map[string]int{}, Stubs: map[string]string{},
 		Workers: *workers, Verbose: *verbose, MapOrderAny: *maporder, Only: *only, MaxPaths: *maxPaths, LockMonitor: *lockmon, FullSchemaLib: *fulllib}
+	cfg.StepBudget = *steps
 	for _, kv := range strings.Split(*bounds, ",") {
 		if kv == "" {
 			continue
